@@ -40,6 +40,7 @@ LEVEL = {"C19": "model_checking"}
 ROOT = os.path.dirname(os.path.dirname(os.path.abspath(__file__)))
 NCPU = min(16, os.cpu_count() or 1)
 MODULE, TRACE_CFG = "MxRegistry", "Trace_MxRegistry.cfg"
+MAX_REPORTS_PER_LABEL = 5       # replays saved / violations listed per label and run (all are counted)
 
 SIZES = {
     "quick": dict(mc=["MC_MxRegistry_quick.cfg", "MC_MxRegistry_quick_deep.cfg"],
@@ -70,6 +71,23 @@ ASSUMPTIONS = [
     "the start of each case) belong to the algorithm layer: a disagreement there is reported as "
     "DRIFT in the evidence, not as a violation",
 ]
+
+
+KF_STALE = "KF:C19.StaleHandleCloseDropsNamesake"
+
+
+def stale_enabled():
+    """Histories ending with close() through the handle of an already closed model are outside
+    the quantifier of C19 ("operations on open models"); they are generated only when the finding
+    they expose is registered in known_findings.json (or VERIF_C19_STALE=1)."""
+    if os.environ.get("VERIF_C19_STALE") == "1":
+        return True
+    try:
+        kf = json.load(open(os.path.join(ROOT, "known_findings.json")))
+        return any(f.get("label") == KF_STALE and f.get("status") == "known"
+                   for f in kf.get("findings", []))
+    except Exception:
+        return False
 
 
 # ---------------------------------------------------------------------------
@@ -356,6 +374,7 @@ def sample_of(tr, maxev=8):
 def collect(traces, verdicts, res):
     """Turn TLC's verdicts into violations / drift statistics."""
     labels = collections.Counter()
+    reported = collections.Counter()
     drift_traces = 0
     for tr, v in zip(traces, verdicts):
         if v["matched"] != v["total"]:
@@ -367,9 +386,11 @@ def collect(traces, verdicts, res):
             labels[lab] += 1
         if any(lab.startswith("DRIFT:") for lab, _ in v["viol"]):
             drift_traces += 1
+        mine = [(lab, l) for lab, l in mine if reported[lab] < MAX_REPORTS_PER_LABEL]
         if mine:
             path = save_replay(tr)
             for lab, l in mine[:3]:
+                reported[lab] += 1
                 res["violations"].append({"label": lab, "line": l, "replay": path})
     return labels, drift_traces
 
@@ -407,7 +428,9 @@ def run(pid, tier, seed):
 
         # 2. code -> spec: random histories
         t0 = time.time()
-        jobs = [{"files": files, "seed": (seed * 100003 + i) % (2 ** 31), "origin": "random", "nops": size["nops"]}
+        stale = stale_enabled()
+        jobs = [{"files": files, "seed": (seed * 100003 + i) % (2 ** 31), "origin": "random",
+                 "nops": size["nops"], "stale_final": stale and i % 3 == 0}
                 for i in range(size["traces"])]
         rtraces = produce(jobs)
         # 3. spec -> code: histories enumerated by TLC
@@ -477,9 +500,22 @@ def run(pid, tier, seed):
         "impl_model_agreement": {"traces_without_drift": len(traces) - drift_traces,
                                  "traces": len(traces)},
         "negative_controls": nc,
+        "stale_handle_histories": stale,
         "trace_production_s": round(t_prod, 1),
         "exhaustive": False,
     }
+    if stale:
+        # the split-off configuration that exposes the known finding at design level: it must
+        # produce exactly that counterexample (any other invariant failing there is a violation)
+        k = run_mc(["MC_MxRegistry_kf.cfg"], 900)[0]
+        cov["kf_model_check"] = {"cfg": k["cfg"], "violated": k["violated"], "states": k["states"],
+                                 "expected": ["Inv_KF_StaleHandleClose"]}
+        for inv in k["violated"]:
+            if inv.startswith("Inv_C19_"):
+                res["violations"].append({"label": inv.replace("Inv_C19_", "C19.") + "(design)",
+                                          "line": 0, "replay": os.path.join(ROOT, "spec", k["cfg"])})
+        if not k["violated"] and not k["ok"] and not res.get("machinery_failure"):
+            res["machinery_failure"] = "model check %s did not complete: %s" % (k["cfg"], k["error"])
     res["coverage"] = cov
     res["summary"] = "mc_states=%d traces=%d (random %d, model %d) events=%d drift=%d neg=%d/%d %.0fs" % (
         mc_states, len(traces), len(rtraces), len(mtraces), cov["evaluations"], drift_traces,
